@@ -2,6 +2,7 @@ package an
 
 import (
 	"fmt"
+	"go/token"
 	"go/types"
 
 	"golang.org/x/tools/go/ssa"
@@ -131,6 +132,69 @@ func (c *Check) RunControls(pre <-chan fixtureLoad) {
 					}
 				},
 				Reqs: []Req{{Name: "element matched", Holds: func(s *State, at ssa.Instruction) bool { return s.HasMark("matched") }}}})
+		})
+	}
+	for _, v := range []struct {
+		f   string
+		bad bool
+	}{{"NilDerefGood", false}, {"NilDerefBad", true}} {
+		v := v
+		run("NILDEREF", v.bad, func(sub *Check) { sub.NilDerefGuard("NILDEREF", v.f, []*ssa.Function{fn(v.f)}, nil) })
+	}
+	for _, v := range []struct {
+		f   string
+		bad bool
+	}{{"ReleasedGood", false}, {"ReleasedBad", true}} {
+		v := v
+		run("RELEASED", v.bad, func(sub *Check) { sub.ReleasedNotReturned("OWNERSHIP", v.f, []*ssa.Function{fn(v.f)}) })
+	}
+	for _, v := range []struct {
+		f   string
+		bad bool
+	}{{"SweepGood", false}, {"SweepBad", true}} {
+		v := v
+		run("MUSTEXEC", v.bad, func(sub *Check) {
+			f := fn(v.f)
+			ok := false
+			for _, b := range f.Blocks {
+				iff, isIf := b.Instrs[len(b.Instrs)-1].(*ssa.If)
+				if !isIf {
+					continue
+				}
+				bo, isBO := iff.Cond.(*ssa.BinOp)
+				if !isBO || bo.Op != token.EQL {
+					continue
+				}
+				if call, isCall := bo.X.(*ssa.Call); !isCall || BuiltinName(call) != "len" {
+					continue
+				}
+				loop := InnermostLoop(f, b)
+				isDel := func(i ssa.Instruction) bool {
+					call, isCall := i.(*ssa.Call)
+					return isCall && BuiltinName(call) == "delete" && IsParam(call.Call.Args[0], 0)
+				}
+				head := func(x *ssa.BasicBlock) bool {
+					if !loop[x] {
+						return true
+					}
+					for o := range loop {
+						if !x.Dominates(o) {
+							return false
+						}
+					}
+					return true
+				}
+				first := b.Succs[0].Instrs[0]
+				ok, _ = MustExecBefore(first, isDel, head)
+				if isDel(first) {
+					ok = true
+				}
+			}
+			if ok {
+				sub.OK("MUSTEXEC", v.f, f, 1, "delete on every path")
+			} else {
+				sub.Fail("MUSTEXEC", v.f, f, "", 1, "a path skips the delete", nil)
+			}
 		})
 	}
 }
